@@ -389,6 +389,10 @@ RULE = ("handler layouts {none, wildcard, scoped(owner), scoped(other), scoped(o
         "compared with a reference owner map, handler entries per lineage with the budget, the outcome with the "
         "original exception + WorkflowFailedEvent, and the two validation settings with each other on the same "
         "schedule; non-trivial = at least one schedule deviation")
+from vmc.tables import _ROUND6 as _R6  # noqa: E402
+
+RULE += _R6["C08"]
+
 
 
 def run(tier: str, seed: int) -> Any:
